@@ -194,30 +194,57 @@ func (m *Machine) countSeq(b, sep []Val) int64 {
 
 // symDigits returns the decimal digits (most significant first) of a non-negative symbolic integer,
 // forking on the digit count and introducing auxiliary digit variables d_k with Σ d_k·10^k = t.
-func (m *Machine) symDigits(t *Term) []Val {
-	n := 1
-	pow := int64(10)
-	for n < 19 {
-		if m.decide(mkCmp("lt", t, mkConst(pow, t.W, t.S))) {
-			break
+func (m *Machine) symDigits(t *Term, minDigits int) []Val {
+	for _, c := range m.digitCache {
+		if c.min == minDigits && (c.t == t || sameTerm(c.t, t)) {
+			return c.d
 		}
-		n++
-		if n < 19 {
-			pow *= 10
+	}
+	n := 0
+	if minDigits > 0 && minDigits < 19 {
+		// no fork when the value provably fits the padded width
+		lim := int64(1)
+		for i := 0; i < minDigits; i++ {
+			lim *= 10
+		}
+		ge := mkNot(mkCmp("lt", t, mkConst(lim, t.W, t.S)))
+		if known, v := m.facts.qeval(ge); (known && !v) || (!known && m.solver.Check(ge) == Unsat) {
+			n = minDigits
+		}
+	}
+	if n == 0 {
+		n = 1
+		pow := int64(10)
+		for n < 19 {
+			if m.decide(mkCmp("lt", t, mkConst(pow, t.W, t.S))) {
+				break
+			}
+			n++
+			if n < 19 {
+				pow *= 10
+			}
 		}
 	}
 	digits := make([]Val, n)
 	sum := mkConst(0, t.W, t.S)
 	p := int64(1)
+	m.digitSeq++
 	for k := 0; k < n; k++ {
-		d := mkVar(fmt.Sprintf("dig!%d!%d", m.pcN, k), 8, false)
+		d := mkVar(fmt.Sprintf("dig!%d!%d", m.digitSeq, k), 8, false)
 		m.assertPC(mkCmp("le", d, mkConst(9, 8, false)))
 		sum = mkArith("add", sum, mkArith("mul", mkConv(d, t.W, t.S), mkConst(p, t.W, t.S)))
 		digits[n-1-k] = fromTerm(mkArith("add", d, mkConst('0', 8, false)))
 		p *= 10
 	}
 	m.assertPC(mkCmp("eq", sum, t))
+	m.digitCache = append(m.digitCache, digitEntry{t: t, min: minDigits, d: digits})
 	return digits
+}
+
+type digitEntry struct {
+	t   *Term
+	min int
+	d   []Val
 }
 
 // formatInt renders a (possibly symbolic) integer in base 10.
@@ -241,7 +268,11 @@ func (m *Machine) formatInt(v Val, minWidth int, zeroPad bool) []Val {
 			neg = true
 			t = mkArith("sub", mkConst(0, x.W, x.S), x)
 		}
-		d := m.symDigits(t)
+		md := 0
+		if zeroPad && !neg {
+			md = minWidth
+		}
+		d := m.symDigits(t, md)
 		pad := minWidth - len(d)
 		if neg {
 			pad--
@@ -597,6 +628,20 @@ func init() {
 		return nil
 	}
 
+	stubs["bytes.NewBuffer"] = func(m *Machine, fr *frame, fn *ssa.Function, a []Val) Val {
+		st := zero(fn.Signature.Results().At(0).Type().(*types.Pointer).Elem()).(Struct)
+		st[0] = a[0]
+		p := new(Val)
+		*p = st
+		return p
+	}
+	stubs["bytes.NewBufferString"] = func(m *Machine, fr *frame, fn *ssa.Function, a []Val) Val {
+		st := zero(fn.Signature.Results().At(0).Type().(*types.Pointer).Elem()).(Struct)
+		st[0] = Slice(append([]Val{}, strBytes(a[0])...))
+		p := new(Val)
+		*p = st
+		return p
+	}
 	// strconv
 	stubs["strconv.Itoa"] = func(m *Machine, fr *frame, fn *ssa.Function, a []Val) Val {
 		return mkStr(m.formatInt(a[0], 0, false))
